@@ -111,7 +111,7 @@ func zzhSavedPackage(d *Document, what string) map[string][]byte {
 func ZZH_C13_StyleAndNumberingRefs() {
 	zzhPkgReset()
 	d := New()
-	k := zzvBound("styled_ops", 2, 3)
+	k := zzvBound("styled_ops", 2, 2)
 	saved := false
 	used := map[int]bool{}
 	redefined := ""
@@ -161,9 +161,9 @@ func ZZH_C13_StyleAndNumberingRefs() {
 				d.GetStyleManager().AddStyle(&style.Style{Type: "paragraph", StyleID: "Quote", Name: &style.StyleName{Val: redefined}})
 			}
 		}
-		// an intermediate save between any two calls (so: content, save, more content of the same
+		// an intermediate save before the last call (so: content, save, more content of the same
 		// kind, save again)
-		if i < k-1 && !saved && zzvBool() {
+		if i < k-1 && !saved && (k == 2 || i == 1) && zzvBool() {
 			zzhSavedPackage(d, "first save")
 			saved = true
 		}
